@@ -27,9 +27,17 @@ def mism(detail):
 # ---------------------------------------------------------------------------
 
 def split_enc(model):
-    left, _, spec = model.partition(" | ")
-    f = left.split(" ")
-    return f, spec.strip()
+    parts = model.split(" | ")
+    f = parts[0].split(" ")
+    spec = parts[1].strip() if len(parts) > 1 else "-"
+    return f, spec
+
+
+def rt_part(s):
+    for p in s.split(" | "):
+        if p.startswith("rt: "):
+            return p[4:]
+    return None
 
 
 def cmp_c02_enc(payload, impl, model):
@@ -37,13 +45,17 @@ def cmp_c02_enc(payload, impl, model):
     ntok = len(payload.split())
     if mf[0] != "fin" or int(mf[1]) != ntok or spec == "-":
         return None  # not one complete in-domain value: C02 is silent (C14 speaks)
-    f = impl.split(" ")
+    f = impl.split(" | ")[0].split(" ")
     if f[0] != "fin" or int(f[1]) != ntok:
         return viol("well-formed token sequence not accepted/completed on its last token: impl=%s %s" % (f[0], f[1]))
     if f[2] != spec:
         return viol("bytes differ from the RFC 7049 encoding: impl=%s spec=%s" % (f[2][:80], spec[:80]))
     if f[2] != mf[2]:
         return mism("model bytes differ from impl although impl matches the spec")
+    # decoding half: the real decoder on the real bytes vs the decoder model on the same bytes
+    irt, mrt = rt_part(impl), rt_part(model)
+    if mrt is not None and mrt.startswith("ok") and irt != mrt:
+        return viol("decoding the encoded bytes: expected %s, got %s" % (mrt[:120], str(irt)[:120]))
     return None
 
 
@@ -117,5 +129,54 @@ PROPS["C04"] = dict(
     suites=[
         ("cbor-dec", dict(cmp=cmp_c04_dec, nontrivial=nt_c04_dec,
                           what="cbor.NewDecoder(opts, r).Step vs CborDec.dec_run and CborParse.parse_item: all byte strings <= 2 (quick) / 3 (thorough) bytes, all strings <= 3/4 over a 46-byte structural alphabet, all 65536 half floats, sampled singles, head boundaries on every major, generated items in random spellings with every proper prefix and single-byte mutations, deep nesting; both option settings")),
+    ],
+)
+
+
+# ---------------------------------------------------------------------------
+# C14: acceptance verdicts of the three encoders vs the specification machine
+# ---------------------------------------------------------------------------
+
+def part(s, prefix):
+    for p in s.split(" | "):
+        if p.startswith(prefix):
+            return p[len(prefix):]
+    return None
+
+
+def cmp_c14(payload, impl, model):
+    iv = impl.split(" | ")[0].split(" ")[:2]
+    mv = model.split(" | ")[0].split(" ")[:2]
+    ctx = part(model, "ctx: ")
+    repr_ok = part(model, "repr: ")
+    if iv[0] == "panic":
+        return viol("encoder panicked on a sequence of valid tokens (token index %s)" % iv[1])
+    if repr_ok in (None, "1"):
+        # every token is representable: the verdict must be the grammar's
+        if " ".join(iv) != ctx:
+            return viol("verdict differs from the token grammar: encoder %s, grammar %s" % (" ".join(iv), ctx))
+    else:
+        if iv != mv:
+            return viol("sequence with an unrepresentable token: expected %s, got %s" % (" ".join(mv), " ".join(iv)))
+    if iv != mv:
+        return mism("model verdict %s differs from impl %s although impl matches the grammar" % (mv, iv))
+    return None
+
+
+def nt_c14(payload, impl, model):
+    return len(payload.split("|")[-1].split()) >= 2
+
+
+PROPS["C14"] = dict(
+    coq="Properties_C14",
+    level_text="Proved in Coq for all token sequences: each encoder model (CBOR, JSON, pretty) steps in lock-step with the specification context machine (same done/continue/error verdict on every token, never a panic); the JSON encoder answers an unrepresentable token (bytes, NaN, Inf) with an error; and the context machine recognises exactly the token renderings of value trees (done exactly at the end of a rendering; an unrejected prefix is completable; a rejected token cannot continue any value). Tied to the three Go encoders by an exhaustive sequence enumeration (all sequences up to length 5 quick / 7 thorough over a 16-token alphabet, as a prefix tree) plus random and deep sequences.",
+    level_note="Trusted: Coq kernel, extraction, OCaml driver, Go harness; hand-written automaton models tied to the Go code by the enumeration (W-method style conformance test, bound stated in the evidence). No axioms.",
+    rule="token sequences; non-trivial = at least 2 tokens; distinct by payload",
+    trusted_base=TB_COMMON,
+    assumptions=["the real Step functions depend on the token only through its type, length sign and tag (the enumeration alphabet covers each class)"],
+    suites=[
+        ("cbor-enc", dict(cmp=cmp_c14, nontrivial=nt_c14, what="cbor.NewEncoder: verdict (done/err/panic, token index) vs TokGrammar.ctx_run key_cbor and vs the CborEnc model")),
+        ("json-enc", dict(cmp=cmp_c14, nontrivial=nt_c14, what="json.NewEncoder: verdict vs ctx_run key_json (representable tokens) / vs JsonEnc model (sequences with bytes, NaN, Inf)")),
+        ("pretty-enc", dict(cmp=cmp_c14, nontrivial=nt_c14, what="pretty.NewEncoder: verdict vs ctx_run key_cbor and the Pretty model; deep nesting up to 2000")),
     ],
 )
